@@ -11,6 +11,10 @@ SPEC = dict(
         "SymVerif.C39.subs_bound_not_free",
         "SymVerif.C39.atoms_spec",
         "SymVerif.C39.dedup_nodup",
+        "SymVerif.C39.atoms_nodup_sorted",
+        "SymVerif.C39.freeSyms_sorted",
+        "SymVerif.C39.freeSyms_spec",
+        "SymVerif.C39.freeSyms_sound",
     ],
     partial=["coincidence lemma (evaluation depends only on free symbols) is not proved yet",
              "coeff(p, x, n) reconstruction is decided by the harness oracle (expand of sum coeff*x^n equals expand p), not by a theorem"],
